@@ -113,3 +113,45 @@ extern "C" void harness_roundtrip_fixed() {
   }
   v_witness("C06 file fixed round trip end");
 }
+
+// "every other encoding of it which the format description permits (chunks split into spans ...) reads to that same mesh":
+// the TET file with its VERT chunk [0,4) re-encoded as two chunks [0,k) + [k,4) (k = v_param(2) in 1..3; chunk header file_length and the
+// vertex sub-header's span {first,count} rewritten per the published layout, payload bytes distributed unchanged), the 12 coordinates symbolic.
+extern "C" void harness_roundtrip_split() {
+  const unsigned k = v_param(2);
+  if (k < 1 || k > 3) return;
+  unsigned vo = 0, vend = 0;
+  for (unsigned c = 0; c < (unsigned)F_TET_NCHUNKS; ++c) if (F_TET_CHUNK_KIND[c] == CK_VERT) { vo = F_TET_CHUNK_OFF[c]; vend = c + 1 < (unsigned)F_TET_NCHUNKS ? F_TET_CHUNK_OFF[c + 1] : (unsigned)F_TET_LEN; }
+  v_assert(vo == 48 && vend == vo + 128, "C06 harness: the generated TET file has one 128-byte VERT chunk right after the file header");
+  if (vo != 48 || vend != vo + 128) return;
+  uint64_t pos_bits[4][3];
+  unsigned o = 0;
+  __builtin_memcpy(g_buf, F_TET, 48); o = 48;
+  for (unsigned part = 0; part < 2; ++part) {
+    const unsigned first = part == 0 ? 0 : k, count = part == 0 ? k : 4 - k;
+    const unsigned base = o;
+    for (unsigned i = 0; i < 32; ++i) g_buf[o++] = F_TET[vo + i];          // chunk header + vertex sub-header of the original chunk
+    put_le(base + 8, 16 + 24 * count, 8);                                  // ChunkHeader.file_length = sub-header + data (no padding: multiples of 8)
+    put_le(base + 16, first, 8); put_le(base + 24, count, 4);              // ArraySpan {first u64, count u32}
+    for (unsigned v = first; v < first + count; ++v) for (unsigned d = 0; d < 3; ++d) { pos_bits[v][d] = v_nondet_u64(); put_le(o, pos_bits[v][d], 8); o += 8; }
+  }
+  v_assert(o == 48 + 32 + 128, "C06 harness: split chunks occupy 160 bytes");
+  __builtin_memcpy(g_buf + 208, F_TET + 176, F_TET_LEN - 176); o = 208 + ((unsigned)F_TET_LEN - 176);
+  const unsigned len = o;
+  VMesh r;
+  ReadOptions opt; PropertyCodecs codecs;
+  VIn in(g_buf, len, ~0ull);
+  ReadResult res = ovmb_read(in.stream(), r, opt, codecs);
+  v_assert(res == ReadResult::Ok, "C06 file: the TET file with its VERT chunk split into two spans reads Ok");
+  if (res != ReadResult::Ok) return;
+  VMesh w; build_file_mesh(w, FM_TET);
+  take_snapshot(r, g_a); take_snapshot(w, g_b);
+  v_assert(!g_a.overflow && !g_b.overflow && snap_equal(g_a, g_b), "C06 file: read-back mesh has the same counts and edge/face/cell definitions, handle for handle");
+  bool same = r.n_vertices() == 4;
+  if (same) for (unsigned v = 0; v < 4; ++v) for (unsigned d = 0; d < 3; ++d) {
+    double c = r.vertex(VH((int)v))[d]; uint64_t b; __builtin_memcpy(&b, &c, 8);
+    if (b != pos_bits[v][d]) same = false;
+  }
+  v_assert(same, "C06 file: positions of a VERT chunk split into spans are read back bit for bit, vertex for vertex");
+  v_witness("C06 file split-span round trip end");
+}
